@@ -8,6 +8,11 @@ from .core import Ctx, Infra, casehash, log
 
 
 def gen(ctx, cfg, label):
+    # CSVWrite appends: a second generator run in the same scratch directory must not find the first run's output
+    # (the first slice used to be driven twice, and every schema on a doubled value list)
+    for f in ("cases.ndjson", "vals.ndjson"):
+        if os.path.exists(ctx.spec(f)):
+            os.remove(ctx.spec(f))
     ctx.tlc("Gen_C01", cfg, label=label)
     cases = os.path.join(ctx.scratch, "cases.ndjson")
     vals = os.path.join(ctx.scratch, "vals.ndjson")
